@@ -128,6 +128,64 @@ def shape_families():
     return keep
 
 
+def nested_triples(rng, thorough):
+    """Three levels: a slot whose rendering level is unusual (subscript index, slice part, argument, display element, clause
+    part, f-string field ...) holding an operator that passes its own level on to an operand, holding an expression that needs
+    parentheses in some places and not in others. Built as reference syntax trees and written out by the reference's own
+    unparser, which knows where Python needs parentheses; only texts the reference parses back are kept."""
+    N = lambda s: ast.Name(id=s, ctx=ast.Load())
+    C = lambda v: ast.Constant(value=v)
+    fillers = [
+        ("tuple", lambda: ast.Tuple(elts=[C(1), C(2)], ctx=ast.Load())), ("tuple1", lambda: ast.Tuple(elts=[N("t")], ctx=ast.Load())), ("tuple0", lambda: ast.Tuple(elts=[], ctx=ast.Load())),
+        ("walrus", lambda: ast.NamedExpr(target=ast.Name(id="w", ctx=ast.Store()), value=C(1))), ("lambda", lambda: ast.Lambda(args=ast.arguments(posonlyargs=[], args=[], kwonlyargs=[], kw_defaults=[], defaults=[]), body=N("b"))),
+        ("ifexp", lambda: ast.IfExp(test=N("p"), body=N("q"), orelse=N("r"))), ("yield", lambda: ast.Yield(value=N("y"))), ("yield-bare", lambda: ast.Yield(value=None)), ("yieldfrom", lambda: ast.YieldFrom(value=N("y"))),
+        ("await", lambda: ast.Await(value=N("aw"))), ("genexp", lambda: ast.GeneratorExp(elt=N("g"), generators=[ast.comprehension(target=ast.Name(id="g", ctx=ast.Store()), iter=N("h"), ifs=[], is_async=0)])),
+        ("neg", lambda: ast.UnaryOp(op=ast.USub(), operand=C(1))), ("not", lambda: ast.UnaryOp(op=ast.Not(), operand=N("n"))), ("pow", lambda: ast.BinOp(left=N("a"), op=ast.Pow(), right=N("b"))),
+        ("or", lambda: ast.BoolOp(op=ast.Or(), values=[N("a"), N("b")])), ("cmp", lambda: ast.Compare(left=N("a"), ops=[ast.Lt()], comparators=[N("b")])), ("bitor", lambda: ast.BinOp(left=N("a"), op=ast.BitOr(), right=N("b"))),
+        ("starred", lambda: ast.Starred(value=N("s"), ctx=ast.Load())), ("int", lambda: C(7)), ("float", lambda: C(1.5)), ("complex", lambda: C(2j)), ("negconst", lambda: C(-3)), ("str", lambda: C("s")), ("slice", lambda: ast.Slice(lower=N("lo"), upper=None, step=None)),
+    ]
+    middles = [
+        ("ifexp.test", lambda x: ast.IfExp(test=x, body=N("a"), orelse=N("b"))), ("ifexp.body", lambda x: ast.IfExp(test=N("c"), body=x, orelse=N("b"))), ("ifexp.orelse", lambda x: ast.IfExp(test=N("c"), body=N("a"), orelse=x)),
+        ("ifexp.chain", lambda x: ast.IfExp(test=N("c"), body=N("a"), orelse=ast.IfExp(test=N("d"), body=N("e"), orelse=x))), ("and.0", lambda x: ast.BoolOp(op=ast.And(), values=[x, N("b")])), ("or.1", lambda x: ast.BoolOp(op=ast.Or(), values=[N("a"), x])),
+        ("not", lambda x: ast.UnaryOp(op=ast.Not(), operand=x)), ("usub", lambda x: ast.UnaryOp(op=ast.USub(), operand=x)), ("pow.l", lambda x: ast.BinOp(left=x, op=ast.Pow(), right=N("b"))), ("pow.r", lambda x: ast.BinOp(left=N("a"), op=ast.Pow(), right=x)),
+        ("add.l", lambda x: ast.BinOp(left=x, op=ast.Add(), right=N("b"))), ("sub.r", lambda x: ast.BinOp(left=N("a"), op=ast.Sub(), right=x)), ("cmp.l", lambda x: ast.Compare(left=x, ops=[ast.Lt()], comparators=[N("b")])),
+        ("cmp.r", lambda x: ast.Compare(left=N("a"), ops=[ast.In()], comparators=[x])), ("lambda.body", lambda x: ast.Lambda(args=ast.arguments(posonlyargs=[], args=[], kwonlyargs=[], kw_defaults=[], defaults=[]), body=x)),
+        ("await", lambda x: ast.Await(value=x)), ("walrus.value", lambda x: ast.NamedExpr(target=ast.Name(id="n", ctx=ast.Store()), value=x)), ("starred", lambda x: ast.Starred(value=x, ctx=ast.Load())), ("attr", lambda x: ast.Attribute(value=x, attr="at", ctx=ast.Load())),
+        ("call.func", lambda x: ast.Call(func=x, args=[], keywords=[])), ("sub.value", lambda x: ast.Subscript(value=x, slice=C(0), ctx=ast.Load())), ("yield", lambda x: ast.Yield(value=x)), ("yieldfrom", lambda x: ast.YieldFrom(value=x)),
+        ("tuple.elt", lambda x: ast.Tuple(elts=[x, N("b")], ctx=ast.Load())), ("tuple.sole", lambda x: ast.Tuple(elts=[x], ctx=ast.Load())), ("id", lambda x: x),
+    ]
+    comp = lambda it, ifs=(): [ast.comprehension(target=ast.Name(id="i", ctx=ast.Store()), iter=it, ifs=list(ifs), is_async=0)]
+    outers = [
+        ("index", lambda y: ast.Subscript(value=N("v"), slice=y, ctx=ast.Load())), ("index.tuple", lambda y: ast.Subscript(value=N("v"), slice=ast.Tuple(elts=[y, N("k")], ctx=ast.Load()), ctx=ast.Load())),
+        ("slice.lower", lambda y: ast.Subscript(value=N("v"), slice=ast.Slice(lower=y, upper=N("u"), step=None), ctx=ast.Load())), ("slice.upper", lambda y: ast.Subscript(value=N("v"), slice=ast.Slice(lower=None, upper=y, step=None), ctx=ast.Load())),
+        ("slice.step", lambda y: ast.Subscript(value=N("v"), slice=ast.Slice(lower=None, upper=None, step=y), ctx=ast.Load())), ("slice.in.tuple", lambda y: ast.Subscript(value=N("v"), slice=ast.Tuple(elts=[ast.Slice(lower=y, upper=None, step=None), N("k")], ctx=ast.Load()), ctx=ast.Load())),
+        ("arg", lambda y: ast.Call(func=N("f"), args=[y], keywords=[])), ("arg.2", lambda y: ast.Call(func=N("f"), args=[N("a"), y], keywords=[])), ("kwarg", lambda y: ast.Call(func=N("f"), args=[], keywords=[ast.keyword(arg="k", value=y)])),
+        ("kwargs", lambda y: ast.Call(func=N("f"), args=[], keywords=[ast.keyword(arg=None, value=y)])), ("list", lambda y: ast.List(elts=[y], ctx=ast.Load())), ("set", lambda y: ast.Set(elts=[y, N("z")])),
+        ("dict.key", lambda y: ast.Dict(keys=[y], values=[N("v")])), ("dict.value", lambda y: ast.Dict(keys=[N("k")], values=[y])), ("dict.unpack", lambda y: ast.Dict(keys=[None], values=[y])),
+        ("listcomp.elt", lambda y: ast.ListComp(elt=y, generators=comp(N("it")))), ("comp.iter", lambda y: ast.ListComp(elt=N("e"), generators=comp(y))), ("comp.if", lambda y: ast.ListComp(elt=N("e"), generators=comp(N("it"), [y]))),
+        ("dictcomp.key", lambda y: ast.DictComp(key=y, value=N("v"), generators=comp(N("it")))), ("dictcomp.value", lambda y: ast.DictComp(key=N("k"), value=y, generators=comp(N("it")))), ("genexp.elt", lambda y: ast.GeneratorExp(elt=y, generators=comp(N("it")))),
+        ("bare", lambda y: y), ("field", lambda y: ast.JoinedStr(values=[ast.FormattedValue(value=y, conversion=-1, format_spec=None)])), ("field.spec", lambda y: ast.JoinedStr(values=[ast.FormattedValue(value=N("v"), conversion=-1, format_spec=ast.JoinedStr(values=[ast.FormattedValue(value=y, conversion=-1, format_spec=None)]))])),
+        ("lambda.default", lambda y: ast.Lambda(args=ast.arguments(posonlyargs=[], args=[ast.arg(arg="p")], kwonlyargs=[], kw_defaults=[], defaults=[y]), body=N("p"))), ("starred.in.list", lambda y: ast.List(elts=[ast.Starred(value=y, ctx=ast.Load())], ctx=ast.Load())),
+        ("paren.call", lambda y: ast.Call(func=ast.Attribute(value=y, attr="m", ctx=ast.Load()), args=[], keywords=[])), ("ifexp.test", lambda y: ast.IfExp(test=y, body=N("a"), orelse=N("b"))),
+    ]
+    out = []
+    seen = set()
+    for on, o in outers:
+        for mn, m in middles:
+            for fn_, f in fillers:
+                if not thorough and rng.random() > .45 and not (on.startswith(("index", "slice")) or mn.startswith("ifexp")):
+                    continue
+                try:
+                    text = ast.unparse(ast.fix_missing_locations(ast.Expression(body=o(m(f())))))
+                    ast.parse(text, mode="eval")
+                except (SyntaxError, ValueError, TypeError, AttributeError):
+                    continue
+                if text not in seen:
+                    seen.add(text)
+                    out.append(("nest3:%s/%s/%s" % (on, mn, fn_), text))
+    return out
+
+
 def erase(n):
     return pyref.erase(n, drop=("_r", "_awd", "ctx"))
 
@@ -260,6 +318,7 @@ def run(res):
                 ops[pos] = child
                 items.append(("pair-bare:%s/%d/%d" % (pname, pos, ci), tpl.format(*ops)))
     items += [("shape:%d" % i, c) for i, c in enumerate(shape_families())]
+    items += nested_triples(rng, thorough)
     items += [("const:%d" % i, c) for i, c in enumerate(constants(rng, thorough))]
     items += [("fstr:%d" % i, c) for i, c in enumerate(fstrings(rng, 3000 if thorough else 1500))]
     items += tw.generated_expressions(res.seed, 30000 if thorough else 10000)
